@@ -171,6 +171,9 @@ class Generator(Curve, Point):
         u1 = val * s_inverse
         u2 = r * s_inverse
         point = u1 * self + u2 * self.Point(*public_pair)
+        if point[0] is None:
+            # the point at infinity has no x coordinate: the signature is invalid (SEC 1, 4.1.4)
+            return False
         v = point[0] % order  # type: ignore[operator]
         return v == r
 
